@@ -107,9 +107,15 @@ def compare_code(c, i, ref, x, co_code_hex=None):
                 o = bad[0]
                 c.fail("colines", "per-unit", "%s co_lines differ at offset %d: CPython line %s, xdis line %s" % (
                     tag, o, ru.get(o, "absent"), xu.get(o, "absent")))
+    if x.get("direct_bad"):
+        c.fail("jump", "per-offset-entry-point", "%s %s" % (tag, x["direct_bad"]))
     if x.get("rename_bad"):
         c.fail("argval", "renamed-locals", "%s co.replace(co_varnames=renamed): %s" % (tag, x["rename_bad"]))
     for what in x.get("shift_bad") or []:
+        if what.startswith("Bytecode(first_line"):
+            for aspect in ("lines", "colines", "positions"):
+                c.fail(aspect, "first_line-rebases-the-object", "%s %s: its own line tables answer differently afterwards" % (tag, what))
+            continue
         aspect = {"findlinestarts": "lines", "co_lines": "colines", "co_positions": "positions"}.get(what, "lines")
         c.fail(aspect, "moved-code-object|%s" % what.split(":")[0], "%s the same code object with co_firstlineno + 1000 (replace()): %s is not "
                "the old answer with every line 1000 higher" % (tag, what))
